@@ -102,3 +102,8 @@ package sensors
 //@   ensures id in sensorReg && id in sensorFinite ==> fin(avgOf(s))
 //@   modifies nothing
 //@   trusted "registry lookup (concurrent map): a registered id yields its well-formed sensor object"
+
+//@ func NewSensor
+//@   returns (sensor, err)
+//@   ensures err == nil ==> sensor != nil && sensorWF(sensor)
+//@   modifies nothing
